@@ -44,6 +44,7 @@ def build_layout(variant, frags, T, scratch, tag, salt, rnd, opus_letter="B"):
     # a second, different disc for multi-drive invocations (drive 1 under the physical policy)
     other = discs.build("DFS", [mkdisc.entry("OTHER", length=700, start=100)] if salt % 2 else [], scratch, tag + "-other", nsectors=400, salt=250, title=b"OTHER")
     d.other = other.path
+    d.other_lay = dict(frags=[[dict(start=100, n=3)] if salt % 2 else []], T=400, cs=2, base=2, maxfiles=31)
     return d, lay
 
 
@@ -94,6 +95,21 @@ def observe(dfs, d, lay, scratch, eid):
                 m2 = re.search(r"Total space free = ([0-9A-F]+) sectors", mine)
                 total2 = int(m2.group(1), 16) if m2 else -1
             ev.append(dict(e="space", id=eid, lay=lay, gaps=gaps2, total=total2, rc=o.rc if o.rc is not None else -9, multi=" ".join(order),
+                           err=o.err.decode("latin1")[:200]))
+            # ... and so must the other drive's section (a blank disc half of the time), whichever comes first
+            theirs = None
+            for j in range(1, len(secs) - 1, 2):
+                if secs[j] == "1":
+                    theirs = secs[j + 1]
+            gaps3, total3 = [-1], -1
+            if theirs is not None:
+                try:
+                    gaps3 = [int(x, 16) for x in theirs.split("\n")[0].split()]
+                except ValueError:
+                    gaps3 = [-1]
+                m3 = re.search(r"Total space free = ([0-9A-F]+) sectors", theirs)
+                total3 = int(m3.group(1), 16) if m3 else -1
+            ev.append(dict(e="space", id=eid, lay=d.other_lay, gaps=gaps3, total=total3, rc=o.rc if o.rc is not None else -9, multi=" ".join(order) + " (drive 1)",
                            err=o.err.decode("latin1")[:200]))
     # sector-map
     surf = d.drive.rstrip("ABCDEFGH")
